@@ -277,6 +277,14 @@ def mon_C17_twin(s):
         return []
     picked = (r.get("state") or {}).get("reruns") or [None]
     nothing_picked = picked[-1] == []      # D8: an accepted rerun with nothing to re-execute
+    # the clean twin lets *every* action succeed; that is the run the property compares with only
+    # when every execution that did not succeed the first time is among those the rerun repeats
+    # (a failure that was handled by a transition is not repeated, and its traces legitimately stay)
+    st0 = r.get("state") or {}
+    abended = [j for j, t in enumerate(st0.get("sequence", [])) if t["status"] in ("failed", "timeout", "abandoned", "canceled")
+               and t["id"] not in monitors.CMDS]
+    if picked[-1] is not None and any(j not in picked[-1] for j in abended):
+        return []
     first.all_succeed = True
     try:
         first.run(continue_from=True)
